@@ -191,6 +191,24 @@ TEXT["C14"] = dict(
     design_ref="5 (C14)",
 )
 
+TEXT["C18"] = dict(
+    category="exploration",
+    technique="seeded simulation (program world) as a population of real Stacks + tape-drawn perturbations + linecache faults; independent box-drawing reader as oracle",
+    text="Weak fit, said plainly: formatting is a pure function of a Stack; the simulation only supplies the population (inner stacks, exit-stack children, exiting contexts, running stacks) and the one I/O fault seam (source lines missing / truncated / garbled in linecache). "
+    "Every Stack and a perturbed copy (hidden flags, dropped metadata, stub / populated / unidentified child task stacks, leaf, multi-line error) is rendered under all 8 option combinations; an independent prefix reader must recover the same nesting; "
+    "line termination, str()==join, ascii_only = marker-for-marker translation, hidden iff show_hidden_frames, show_contexts=False = frame series.",
+    note="Trusted: the reader's grammar (two-column prefixes); reprs/source single-line ASCII without leading markers; child kind not compared (lexically identical shapes).",
+    design_ref="5 (C18), 6",
+)
+TEXT["C19"] = dict(
+    category="exploration",
+    technique="seeded simulation (program world) as a population of real Stacks + perturbations + linecache faults; reference projection written from the docstrings as oracle",
+    text="Weak fit (same population as C18): for all combinations of show_contexts / show_hidden_frames / capture_locals the summary must equal the reference projection, survive pickling unchanged and reference no frame; "
+    "format_flat must be header + StackSummary.format() + leaf + error lines.",
+    note="Trusted: the projection in sim/world/fmt.py (project_stack) as reading of the docstrings.",
+    design_ref="5 (C19), 6",
+)
+
 PENDING_REASON = "check not built yet in this round (work in progress; see DESIGN.md section 5 for the planned simulation)"
 
 ALL = ["C%02d" % i for i in range(1, 21)]
